@@ -7,6 +7,7 @@ package main
 import (
 	"fmt"
 	"go/token"
+	"go/types"
 	"regexp"
 	"sort"
 	"strings"
@@ -22,7 +23,7 @@ type CallFact struct {
 	Ctx    []string
 	Pos    token.Pos
 	Chain  []string
-	InLoop string // atom of the innermost ranged collection, "" when not in a loop
+	InLoop string        // atom of the innermost ranged collection, "" when not in a loop
 	Alts   map[int][]Alt // for arguments that are branch-dependent (phi): each alternative with its branch context
 	Root   string        // effect mode: the memory object a store/write targets ("local…" or the provenance of the reference it goes through)
 }
@@ -121,6 +122,57 @@ func (ge *GuardEngine) Calls(fn *ssa.Function, env *Env, chain, ctx []string, de
 					}
 					continue
 				}
+				// *p = T{F: v, …} through a pointer that is neither a local nor a parameter (a recorder's result):
+				// one store fact per field of the literal (unset fields are stored as zero)
+				if pt, isPtr := x.Addr.Type().Underlying().(*types.Pointer); isPtr {
+					if st, isStruct := pt.Elem().Underlying().(*types.Struct); isStruct {
+						if _, isFA := x.Addr.(*ssa.FieldAddr); !isFA {
+							if ld, isLoad := x.Val.(*ssa.UnOp); isLoad && ld.Op == token.MUL {
+								if lit, isAlloc := ld.X.(*ssa.Alloc); isAlloc && lit.Referrers() != nil {
+									base := ge.pv.Atom(x.Addr, env)
+									set := map[int]ssa.Value{}
+									simple := true
+									for _, r := range *lit.Referrers() {
+										switch y := r.(type) {
+										case *ssa.FieldAddr:
+											if y.Referrers() == nil {
+												continue
+											}
+											for _, rr := range *y.Referrers() {
+												if fs, ok := rr.(*ssa.Store); ok && fs.Addr == ssa.Value(y) {
+													set[y.Field] = fs.Val
+												} else {
+													simple = false
+												}
+											}
+										case *ssa.UnOp, *ssa.DebugRef:
+										default:
+											simple = false
+										}
+									}
+									if simple {
+										for i := 0; i < st.NumFields(); i++ {
+											val := "zero"
+											if v, ok := set[i]; ok {
+												// F: p.F — the field keeps its value: not a store at all
+												if l2, ok := v.(*ssa.UnOp); ok && l2.Op == token.MUL {
+													if src, ok := l2.X.(*ssa.FieldAddr); ok && src.X == x.Addr && src.Field == i {
+														continue
+													}
+												}
+												val = ge.pv.Atom(v, env)
+											}
+											out = append(out, CallFact{Caller: fn, Name: "store", Pos: x.Pos(), Chain: chain, Root: ge.writeRoot(x.Addr, env),
+												Args: []string{base + "." + st.Field(i).Name(), val},
+												Ctx:  append(append([]string{}, ctx...), ge.condCtx(fi, b, env)...)})
+										}
+										continue
+									}
+								}
+							}
+						}
+					}
+				}
 				if fa, ok := x.Addr.(*ssa.FieldAddr); ok {
 					if _, isAlloc := ge.pv.resolve(fa.X).(*ssa.Alloc); !isAlloc {
 						out = append(out, CallFact{Caller: fn, Name: "store", Pos: x.Pos(), Chain: chain, Root: ge.writeRoot(fa, env),
@@ -188,13 +240,13 @@ func (ge *GuardEngine) EntryCalls(entry string) ([]CallFact, bool) {
 
 // A CallReq requires a call (to a function selected by effect or name pattern) with given argument atoms.
 type CallReq struct {
-	ID     string
-	Entry  string
-	Callee func(fn *ssa.Function) bool // which callees qualify (by effect)
+	ID         string
+	Entry      string
+	Callee     func(fn *ssa.Function) bool // which callees qualify (by effect)
 	CalleeDesc string
-	Args   map[int]string // argument index -> regexp
-	Ctx    []string
-	Clause string
+	Args       map[int]string // argument index -> regexp
+	Ctx        []string
+	Clause     string
 }
 
 func CheckCallReq(c *Ctx, rule string, r CallReq, calls []CallFact) {
